@@ -50,7 +50,7 @@ def validate(w, fam, obs, label):
             r[k] = slim_nodes(o[k])
         r["peers"] = [slim_nodes(p) for p in o["peers"]]
         rows.append(r)
-    write_ndjson(tf, rows)
+    write_ndjson(tf, rows, clamp=True)
     r = w.tlc("MCSyncTrace", trace_cfg(fam), env={"VERIF_TRACE": tf}, label="SyncTrace-" + label, timeout=3000)
     if not r["completed"]:
         raise Broken("trace validation did not complete: " + r["out"][-3000:])
